@@ -21,6 +21,11 @@ SKELETONS = [
     R + "eviction_state_impl.go:evictionState.Evict", R + "eviction_state_impl.go:evictionState.evict",
     R + "eviction_state_impl.go:evictionState.EvictionEvent",
     "ds/shrinkingmap/shrinkingmap.go:ShrinkingMap.GetOrCreate",
+    # type facts: counter widths, the slot types EvictionState admits, fields that could shadow an embedded one
+    R + "wait_group_impl.go:type=waitGroup", R + "eviction_state_impl.go:type=evictionState", "ds/set_impl.go:type=setArithmetic",
+    R + "variable_impl.go:type=derivedVariable", R + "counter_impl.go:type=counter", R + "eviction_state.go:type=EvictionStateSlotType",
+    R + "sorted_set_impl.go:type=sortedSetElement", R + "set_impl.go:type=derivedSet",
+    R + "variable_impl.go:derivedVariable.Unsubscribe", R + "variable_impl.go:variable.DeriveValueFrom",
 ]
 EXTRA = ["LockExecution", "UnlockExecution", "MarkUnsubscribed", "Invoke", "Trigger", "OnUpdate", "Compute", "Set", "Get",
          "Add", "Delete", "unsubscribeFromWeightUpdates", "updatePosition", "Apply", "Subtract"]
@@ -38,7 +43,7 @@ SPEC = {
     "harness": "c14",
     "harness_timeout": {"quick": 900, "thorough": 6000},
     "theorems": [
-        "C14_derived_var", "C14_derived_var_steady", "C14_inherit",
+        "C14_derived_var", "C14_derived_var_steady", "C14_inherit", "C14_derived_var_unsubscribe", "C14_derived_var_frozen",
         "C14_derived_set", "C14_derived_set_counts", "C14_subtract", "C14_counter",
         "C14_derived_set_concurrent", "C14_subtract_concurrent", "C14_skeleton_readableSet_SubtractReactive", "C14_counter_concurrent", "C14_sorted_set_concurrent",
         "C14_sorted_set", "C14_sorted_set_spec", "C14_sorted_set_members", "C14_sorted_set_absent_weight",
@@ -51,6 +56,9 @@ SPEC = {
         "C14_skeleton_variable_Compute", "C14_skeleton_NewDerivedVariable2", "C14_skeleton_readableVariable_OnUpdate", "C14_skeleton_sortedSet_deleteSorted",
         "C14_skeleton_sortedSet_addSorted", "C14_skeleton_waitGroup_Add", "C14_skeleton_waitGroup_Done",
         "C14_skeleton_evictionState_evict", "C14_skeleton_derivedSet_inheritMutations", "C14_skeleton_callback_LockExecution",
+        "C14_skeleton_derivedVariable_Unsubscribe", "C14_skeleton_variable_DeriveValueFrom", "C14_skeleton_type_waitGroup", "C14_skeleton_type_evictionState",
+        "C14_skeleton_type_setArithmetic", "C14_skeleton_type_derivedVariable", "C14_skeleton_type_counter", "C14_skeleton_type_EvictionStateSlotType",
+        "C14_skeleton_type_sortedSetElement", "C14_skeleton_type_derivedSet",
     ],
     "trusted_base": [
         "hand-written models lean/Hive/Model/Derived*.lean of ds/reactive, tied by (1) line-by-line differential execution of the sequential models, "
